@@ -276,10 +276,15 @@ def apply_simple_op(world, op):
         with vsc.raw_mode():
             fo.rand_mode = b
         node["rand_mode"] = bool(b)
-    elif k == "cmode":
+    elif k in ("cmode", "cmode_raw"):
         path, bn, b = tuple(op[1]), op[2], op[3]
         obj = world.real(path)
-        getattr(obj, bn).constraint_mode(b)
+        if k == "cmode_raw":
+            # the toggle is made inside a raw_mode region (where users switch rand_mode of fields)
+            with vsc.raw_mode():
+                getattr(obj, bn).constraint_mode(b)
+        else:
+            getattr(obj, bn).constraint_mode(b)
         P.get_node(world.shadow, path)["cmode"][bn] = bool(b)
     elif k == "rl_append":
         path, item = tuple(op[1]), op[2]
